@@ -192,6 +192,15 @@ def le128Bytes (v : Nat) : List Nat := (List.range 16).map fun i => v / 256 ^ i 
 with `c1 = 0`.  (Not the path at `Unreasonable`, where `reference_brute_force` runs first.) -/
 def bc4uSingle (v : Nat) : List Nat := [v, 0, 0, 0, 0, 0, 0, 0]
 
+/-! ### BC4 endpoint pairs (`EndPoints::new_inter6`, `quantize`, `inter6_to_inter4`) -/
+
+/-- the "make sure they are different" step of `EndPoints::new_inter6` / `quantize` on the rounded values
+(`min_u8`, `max_u8`) with the floor / ceiling fall-backs -/
+def fixDistinct (minR maxR minF maxC : Nat) : Nat × Nat :=
+  if minR = maxR then
+    if minF = maxC then (if minF = 0 then (minF, 1) else (minF - 1, maxC)) else (minF, maxC)
+  else (minR, maxR)
+
 /-! ### 5:6:5 single colours that are exactly representable (`compress_single_color`, `min == max`) -/
 
 def BLACK : C565 := ⟨0, 0, 0⟩
